@@ -367,6 +367,63 @@ fn e4_scoping(out: &mut Vec<Edge>) {
         }
         out.push(e);
     }
+    // a binding used inside the header of the very construct that introduces it
+    let self_ref = [
+        "let v = h_int(v) return v",
+        "let v = saturating_add(v, 1) return v",
+        "let v = { let w = v :w } return v",
+        "let v = { let v = 1 :v } return v",
+        "let v = if b { :v } else { :1 } return v",
+        "let v = match oi { Some(q) => q None => v } return v",
+        "let v = S { a: 1, ...v } return v.a",
+        "let v = Some(v) return 0",
+        "return { let w = w :1 }",
+        "match v { Some(v) => { return v } None => { return 0 } }",
+        "match Some(v) { Some(v) => { return v } None => { return 0 } }",
+        "match oi { Some(v) => { return v } Some(v) => { return 1 } None => { return 0 } }",
+        "return match q { Some(q) => q None => 0 }",
+        "return match (q) or (1) { 0 => 0 _ => 1 }",
+        "match r { Ok(v) => { return v } Err(u) => { return v } }",
+        "match r { Ok(v) => { return 0 } Err(v) => { if v { return 1 } return 2 } }",
+        "return match oi { Some(v) => 0 None => v }",
+        "if v == 1 { let v = 1 return v } return 0",
+        "check v == 1 else return 0 let v = 1 return v",
+        "let w = v let v = 1 return w",
+    ];
+    for b in self_ref {
+        out.push(fun("int", b, "self_referential_bindings"));
+    }
+    for (lit, body) in [
+        ("F[k: q.v]", "publish Cmd { a: q.v }"),
+        ("F[k: q.k]", "publish Cmd { a: q.v }"),
+        ("F[k: ?]=>{v: q.v}", "publish Cmd { a: q.v }"),
+        ("F[k: saturating_add(q.v, 1)]", "publish Cmd { a: 1 }"),
+        ("G[k: q.s, n: ?]", "publish Cmd { a: q.n }"),
+        ("G[k: s, n: q.n]", "publish Cmd { a: q.n }"),
+        ("G[k: s, n: ?]=>{w: q.w, s: ?}", "publish Cmd { a: 1 }"),
+        ("H[e: q.e, i: ?]", "publish Cmd { a: 1 }"),
+        ("F[k: ?]", "map F[k: q2.v] as q2 { publish Cmd { a: q2.v } }"),
+        ("F[k: ?]", "map F[k: q.v] as q2 { publish Cmd { a: q2.v } }"),
+        ("F[k: ?]", "map F[k: q.v] as q { publish Cmd { a: q.v } }"),
+        ("F[k: x]", "let q3 = query F[k: q3.v] publish Cmd { a: 1 }"),
+        ("F[k: x]", "match query F[k: z.v] { Some(z) => { publish Cmd { a: z.v } } None => { } }"),
+        ("F[k: x]", "if exists F[k: q.v] { publish Cmd { a: 1 } }"),
+    ] {
+        out.push(Edge {
+            extra_decls: FACT_DECLS,
+            text: format!("action f(x int, s string, b bool) {{ map {lit} as q {{ {body} }} }}"),
+            family: "self_referential_bindings",
+            kind: EdgeKind::Action,
+            class_key: None,
+        });
+        out.push(Edge {
+            extra_decls: FACT_DECLS,
+            text: format!("action f(x int, s string, b bool) {{ map {lit} as q {{ {body} }} map {lit} as q {{ {body} }} }}"),
+            family: "self_referential_bindings",
+            kind: EdgeKind::Action,
+            class_key: None,
+        });
+    }
     // the same name as a function parameter of a called function, recursion-free chains
     out.push(Edge {
         extra_decls: "function k1(v int) int { let w = k2(v) return w }\nfunction k2(v int) int { let w = k3(v) return w }\nfunction k3(w int) int { return w }\n",
@@ -946,6 +1003,7 @@ pub fn run(args: &Args) {
     rep.require_nonzero("accepted_fact_queries");
     rep.require_nonzero("accepted_map_loops");
     rep.require_nonzero("accepted_actions");
+    rep.require_nonzero("accepted_self_referential_bindings");
     rep.finish()
 }
 
